@@ -263,7 +263,15 @@ func checkC17(c *Ctx, r *Report) {
 		if ok {
 			n := 0
 			allInstrs(sc, false, func(in ssa.Instruction) {
-				if ld, isLd := in.(*ssa.UnOp); isLd && ld.Op == token.MUL && strings.HasSuffix(apOf(ld.X).SelString(), fMsg+".CompletionCode") {
+				if ld, isLd := in.(*ssa.UnOp); isLd && ld.Op == token.MUL && strings.HasSuffix(apOf(ld.X).SelString(), "CompletionCode") {
+					aps := viewAPs(sc, ld.X)
+					isCode := len(aps) > 0
+					for _, ap := range aps {
+						isCode = isCode && strings.HasSuffix(ap.SelString(), fMsg+".CompletionCode")
+					}
+					if !isCode {
+						return
+					}
 					n++
 					if !mustPrecede(sc, exch, ld) {
 						ok = false
